@@ -92,6 +92,12 @@ def run(s):
         rng = s.rng('state', i)
         pool = gen.text_pool('hostile')
         ro_txt = gen.rand_ro(rng, n_stories=rng.randint(1, 6), pool=pool, rich=True)
+        if i % 4 == 3:
+            # one story somewhere carries timing fields that are not numbers: irrelevant to what is delivered
+            import re
+            ro_txt = re.sub(r'<(TextTime|MediaTime|StoryDuration)>[^<]*</\1>',
+                            lambda m_: '<%s>%s</%s>' % (m_.group(1), rng.choice(['0:45', '45s', '']), m_.group(1)), ro_txt, count=1)
+            s.hist['states_with_non_numeric_timing'] += 1
         state = Abs(ro_txt)
         ids = gen.Ids('C%d.' % i)
         for kind in CARRYING:
